@@ -80,6 +80,29 @@ func Format(g *G, n int) []Program {
 			}
 			g.Load("r0", g.Bool(), d, e, 0, mode)
 		}
+		// %f with the rounding position exactly at, or above, the leading digit: 0 or one unit, decided by
+		// the mode and by the comparison with one half (leading digits 5000...0 followed, far away, by something)
+		if g.R.Intn(6) == 0 {
+			mode = g.Pick(0, 0, 1, g.Mode())
+			d := strings.TrimRight(g.roundingTail(), "0")
+			if g.Bool() {
+				// exactly one half, or one half plus something beyond the first mantissa word(s)
+				d = "5" + strings.Repeat("0", g.Pick(0, 17, 18, 19, 37, 38, 40)) + g.PickS("", "1", "7")
+				d = strings.TrimRight(d, "0")
+			}
+			d = strings.TrimLeft(d, "0")
+			if d == "" {
+				d = "5"
+			}
+			pr := g.R.Intn(6)
+			g.Load("r0", g.Bool(), d, int64(-pr-g.Pick(0, 0, 0, 1, 2)), 0, mode)
+			ref = ""
+			bigExp = false
+			g.Emit(M{"op": "Text", "x": "r0", "fmt": "f", "prec": pr, "pre": ""})
+			fs := "%." + strconv.Itoa(pr) + "f"
+			g.Emit(M{"op": "Format", "x": "r0", "f": fs, "verb": "f", "plus": false, "space": false, "zero": false, "minus": false,
+				"haswidth": false, "width": 0, "hasprec": true, "fprec": pr})
+		}
 		// several outputs per value
 		for j := 0; j < 3; j++ {
 			switch g.R.Intn(10) {
